@@ -731,7 +731,7 @@ class StmtMixin:
         # 2. find what the body modifies (discovery pass on a throw-away state)
         mod_names = assigned_names(n.body) | (assigned_names([n.target]) if hasattr(n, 'target') else set())
         mod_names = {m for m in mod_names if st.lookup(m)[0] is not None} | set(extra_mod)
-        written = self.discover_writes(st, n, mod_names, guard, pre_body)
+        written = self.discover_writes(st, n, mod_names, guard, pre_body, invs, ordinal)
         # 3. havoc
         h = st
         first_iter = []      # (havocked value, value at loop entry): used to steer replay models to iteration 0
@@ -772,6 +772,8 @@ class StmtMixin:
         snap = h.copy()
         snap.ghost.pop('$head', None)
         h.ghost['$head'] = snap
+        if ordinal is not None:
+            h.ghost['$head%d' % ordinal] = snap
         steps = []
         if ordinal is not None and self.cur_contract is not None:
             steps = getattr(self.cur_contract, 'loop_steps', {}).get(ordinal, [])
@@ -814,7 +816,7 @@ class StmtMixin:
                         exits.append(s2)
         return exits
 
-    def discover_writes(self, st, n, mod_names, guard, pre_body):
+    def discover_writes(self, st, n, mod_names, guard, pre_body, invs=(), ordinal=None):
         save = (self.collect_only, self.written, self.obligations)
         self.collect_only, self.written, self.obligations = True, set(), []
         try:
@@ -825,6 +827,15 @@ class StmtMixin:
                     d.frames[fid][name] = self.havoc_local(d, name, v)
                 except Unsupported:
                     raise
+            snap = d.copy()
+            d.ghost['$head'] = snap
+            if ordinal is not None:
+                d.ghost['$head%d' % ordinal] = snap
+            for inv in invs:
+                try:
+                    d.assume(self.eval_clause(d, inv, self.visible_env(d), self.cur_info, old_st=self.entry_state))
+                except Exception:
+                    pass
             for s, c in guard(d):
                 if s.exc is not None:
                     continue
